@@ -330,3 +330,7 @@ def run(ctx):
     from rules import c12
     for spec in [x for x in c12.OPS if x[2] in ("copy", "projection", "select", "__getitem__") and x[0] != "HistogramCollection"]:
         c12.check_op(ctx, m, "C16.e", "C16.e", *spec)
+
+    # shared with C07.f: a sliced / copied binning carries no cached edge representation of its parent
+    from rules import c07 as _c07
+    _c07.check_binning_copies(ctx, "C16.c", m)
